@@ -103,6 +103,9 @@ def fMfhd (seq : Nat) : Box := leaf "mfhd" (u32be 0 ++ u32be seq)
 def fTfhd : Box := leaf "tfhd" (u32be 0x00020000 ++ u32be 1)
 def fTfdt (base : Nat) : Box := leaf "tfdt" (u32be 0x01000000 ++ u64be base)
 
+/-- `(pts as i64).wrapping_sub(dts as i64) as i32` -/
+def ctsWrap (pts dts : Nat) : Int := toI32 ((((pts : Int) - (dts : Int)) % (2^32 : Int)).toNat)
+
 /-- per-sample duration of `build_trun` -/
 def trunDuration (samples : List FSample) (i : Nat) : Nat :=
   let d (j : Nat) : Nat := (samples[j]?.map (·.dts)).getD 0
@@ -112,7 +115,7 @@ def trunDuration (samples : List FSample) (i : Nat) : Nat :=
 
 def trunRow (samples : List FSample) (i : Nat) (s : FSample) : Bytes :=
   u32be (trunDuration samples i) ++ u32be s.data.length ++
-  u32be (if s.sync then 0x02000000 else 0x01010000) ++ i32be ((ctsOf s.pts s.dts).getD 0)
+  u32be (if s.sync then 0x02000000 else 0x01010000) ++ i32be (ctsWrap s.pts s.dts)
 
 def fTrun (samples : List FSample) (dataOffset : Nat) : Box :=
   leaf "trun" (u32be (0x01000000 + 0xF01) ++ u32be samples.length ++ u32be dataOffset ++
@@ -142,37 +145,25 @@ def Frag.write (f : Frag) (pts dts : Nat) (data : Bytes) (sync : Bool) : Frag ×
   if (match f.lastDts with | some l => decide (dts < l) | none => false) then (f, .errNonMonotonic) else
   ({ f with lastDts := some dts, samples := f.samples ++ [⟨pts, dts, data, sync⟩] }, .ok)
 
-/-- `flush_segment`; panics: i64 overflow of pts−dts in `build_trun`, u32 overflow of the
-    sequence counter, u64 overflow of the next base decode time. -/
+/-- `flush_segment`: the segment's base decode time is its first sample's DTS -/
 def Frag.flush (f : Frag) : Frag × FReply :=
-  match f.samples.getLast? with
-  | none => (f, .none)
-  | some last =>
-    if f.samples.any (fun s => (ctsOf s.pts s.dts).isNone) then ({ f with samples := [] }, .panic) else
-    let seg := buildSegment f.samples f.seq f.base
-    if f.seq + 1 > u32Max then ({ f with samples := [] }, .panic) else
-    let first := (f.samples.head?.map (·.dts)).getD 0
-    let next := if f.samples.length ≥ 2 then last.dts + (last.dts - first) / (f.samples.length - 1)
-                else last.dts + 3000
-    if next > u64Max then ({ f with samples := [], seq := f.seq + 1 }, .panic) else
-    ({ f with samples := [], seq := f.seq + 1, base := next }, .seg seg)
+  match f.samples with
+  | [] => (f, .none)
+  | first :: _ =>
+    let seg := buildSegment f.samples f.seq first.dts
+    ({ f with samples := [], seq := (f.seq + 1) % 2^32, base := first.dts }, .seg seg)
 
-def Frag.spanMs (f : Frag) : Option Nat :=
+/-- `current_fragment_duration_ms` (128-bit product, zero timescale → 0, saturating to u64) -/
+def Frag.spanMs (f : Frag) : Nat :=
+  if f.samples.length < 2 then 0 else
   let first := (f.samples.head?.map (·.dts)).getD 0
   let last := (f.samples.getLast?.map (·.dts)).getD 0
   let ticks := last - first
-  if ticks * 1000 > u64Max ∨ f.cfg.timescale = 0 then none else some (ticks * 1000 / f.cfg.timescale)
+  if f.cfg.timescale = 0 then 0 else min (ticks * 1000 / f.cfg.timescale) u64Max
 
 def Frag.ready (f : Frag) : FReply :=
-  if f.samples.length < 2 then .bool false else
-  match f.spanMs with
-  | none => .panic
-  | some ms => .bool (ms ≥ f.cfg.fragDurMs)
+  if f.samples.length < 2 then .bool false else .bool (f.spanMs ≥ f.cfg.fragDurMs)
 
-def Frag.durMs (f : Frag) : FReply :=
-  if f.samples.length < 2 then .num 0 else
-  match f.spanMs with
-  | none => .panic
-  | some ms => .num ms
+def Frag.durMs (f : Frag) : FReply := .num f.spanMs
 
 end Muxide
